@@ -170,6 +170,7 @@ def run_C08(ctx, R):
     acc.rule_accessors(ctx, R)
     lazy.rule_lazy_ctor(ctx, R, rules={"LAZY-CTOR"})
     da.rule_placement(ctx, R, E.NR, E.BR, rules={"DA-EDGE", "DA-BASE", "B-BASE", "B-FAIL", "B-OPOS"})
+    da.rule_find_base(ctx, R, E.NR, E.BR)       # the char-wise table must be collision-free for the two variants to agree
     da.rule_array_growth(ctx, R, E.NR, E.BR)
 
 
@@ -373,6 +374,18 @@ def main(argv):
     if not argv:
         print(__doc__)
         return 2
+    # a check must never hang: normal run time is seconds; give up loudly after 20 minutes (exit 3, no VIOLATION line)
+    try:
+        import signal
+
+        def _timeout(signum, frame):
+            print("CHECK-TIMEOUT: the analysis did not finish within 1200 s; this is a defect of the checker, not a verdict on /repo",
+                  file=sys.stderr)
+            os._exit(3)
+        signal.signal(signal.SIGALRM, _timeout)
+        signal.alarm(1200)
+    except Exception:
+        pass
     prop = argv[0]
     tier = os.environ.get("VERIF_TIER", "quick")
     facts_dir = None
